@@ -27,7 +27,10 @@ void run_C13(vh::Ctx& c) {
   c.begin_case(0);
   // every factory call below is preceded by releasing a same-dimension vector full of junk, so that the
   // block the factory recycles from the storage cache is dirty (a factory that relies on fresh memory fails)
-  auto dirty = [](int d) { SU_vector junk(d); junk.SetAllComponents(7.25e5); };
+  // ... and so is the stack below the caller: a factory that reads scratch it never wrote sees garbage, not leftovers of
+  // an earlier call that happen to be right (the sanitizers in use do not flag uninitialised reads)
+  struct Stack { static __attribute__((noinline)) void scribble(double v) { volatile double junk[6144]; for (int i = 0; i < 6144; i++) junk[i] = v + i; } };
+  auto dirty = [](int d) { SU_vector junk(d); junk.SetAllComponents(7.25e5); Stack::scribble(-3.5e7); };
   for (int d = 2; d <= 6; d++) {
     dirty(d);
     judge(c, "Identity", d, 0, SU_vector::Identity(d), ref::Mat::identity(d));
